@@ -1197,6 +1197,9 @@ impl<D: DependencyProvider, RT: AsyncRuntime> Solver<D, RT> {
                     next_cursor = cursor.next();
                 }
             }
+
+            // All clauses that watch the literal have been visited.
+            self.state.decision_tracker.mark_propagated();
         }
 
         Ok(())
